@@ -468,7 +468,15 @@ class Interp:
             env[root] = m.copy(verts=nv)
 
     def _vstore(self, st, v):
-        self.vertex_stores = [(n, a) for n, a in self.vertex_stores if n is not st] + [(st, v)]
+        # a statement inside a loop is interpreted twice (fixpoint): keep what the first, more precise pass derived
+        for n, a in self.vertex_stores:
+            if n is st:
+                if a.deg is None and v.deg is not None:
+                    a.deg = v.deg
+                if a.aff is None and v.aff is not None:
+                    a.aff = v.aff
+                return
+        self.vertex_stores.append((st, v.copy()))
 
     def call_effect(self, c, env, st):
         f = c.func
